@@ -344,7 +344,7 @@ func driverMain(args []string) int {
 	// crashes and hangs: each was already retried alone by runShard
 	for _, cr := range crashes {
 		if cr.stall {
-			total.Violations = append(total.Violations, Violation{Property: id, Key: "uninterruptible", Desc: fmt.Sprintf("the case burnt more than %v of CPU time without reaching a single monitor point (yield or evaluation step), also when run alone: %s", chk.StallCPU, firstLines(cr.stderr, 2)), Input: cr.input, Seed: seed, Tier: *tier, Case: cr.caseNo})
+			total.Violations = append(total.Violations, Violation{Property: id, Key: "uninterruptible", Desc: fmt.Sprintf("the case burnt more than %v of CPU time without reaching a single monitor point of the check (a yield or evaluation step of the evaluator, the return of a lexer or parser call), also when run alone: %s", chk.StallCPU, firstLines(cr.stderr, 2)), Input: cr.input, Seed: seed, Tier: *tier, Case: cr.caseNo})
 			continue
 		}
 		if cr.timeout {
@@ -485,6 +485,13 @@ func runShard(self string, chk *Check, st *shardState, tier string, seed int64, 
 	wtmp := base + ".tmp"
 	_ = os.MkdirAll(wtmp, 0o755)
 	for attempt := 0; attempt < 200; attempt++ {
+		// a hang costs a watchdog period twice (batch + alone): once three cases are confirmed to hang the
+		// verdict of the run is settled, and the remaining cases of every shard are left unexplored
+		if n := atomic.LoadInt64(&confirmedHangs); n >= 3 {
+			st.res.Inconclusive = append(st.res.Inconclusive, fmt.Sprintf("shard %d stopped at case position %d: %d cases were already confirmed to hang", st.k, st.next, n))
+			st.res.Counters["inconclusive"]++
+			return
+		}
 		journal, out, errf := base+".journal", base+".out", base+".stderr"
 		os.Remove(journal)
 		os.Remove(out)
@@ -522,7 +529,7 @@ func runShard(self string, chk *Check, st *shardState, tier string, seed int64, 
 		}
 		// confirm alone
 		alone := exec.Command(self, "worker", chk.ID, "--tier", tier, "--seed", fmt.Sprint(seed), "--only", fmt.Sprint(last),
-			"--out", base+".alone.out", "--tmp", wtmp, "--case-timeout", "600s")
+			"--out", base+".alone.out", "--tmp", wtmp, "--case-timeout", "300s")
 		var ab bytes.Buffer
 		alone.Stderr, alone.Stdout = &ab, &ab
 		os.Remove(base + ".alone.out")
@@ -534,13 +541,20 @@ func runShard(self string, chk *Check, st *shardState, tier string, seed int64, 
 			st.res.Inconclusive = append(st.res.Inconclusive, fmt.Sprintf("case %d: worker died (timeout=%v) in a batch but the case passed alone; batch stderr: %s", last, isTimeout, firstLines(string(eb), 3)))
 			st.res.Counters["inconclusive"]++
 		} else {
-			st.crashes = append(st.crashes, crash{caseNo: last, timeout: isTimeout && (errors.Is(aerr, errTimeout) || exitCode(aerr) == 3 || exitCode(aerr) == 4), stall: exitCode(aerr) == 4, stderr: ab.String(), input: ReadJournal(wtmp)})
+			cr := crash{caseNo: last, timeout: isTimeout && (errors.Is(aerr, errTimeout) || exitCode(aerr) == 3 || exitCode(aerr) == 4), stall: exitCode(aerr) == 4, stderr: ab.String(), input: ReadJournal(wtmp)}
+			if cr.timeout || cr.stall {
+				atomic.AddInt64(&confirmedHangs, 1)
+			}
+			st.crashes = append(st.crashes, cr)
 		}
 		st.skip = append(st.skip, last)
 	}
 }
 
 var errTimeout = errors.New("watchdog timeout")
+
+// confirmedHangs counts, over all shards, the cases that hung or stalled in a batch and again alone.
+var confirmedHangs int64
 
 func runWithTimeout(cmd *exec.Cmd, d time.Duration) error {
 	if err := cmd.Start(); err != nil {
